@@ -42,7 +42,14 @@
    [:usr1 noop] [:usr1]
    [(pre :watcher) (P "md") :all] [(pre :watcher)] [(pre :file)] [(pre :file) :all] [(pre :file) "x"]
    [(pre :server)] [(pre :stream)] [(pre :stream) 1] [(pre :proc)] [(pre :chan)] [(pre :chan) (P "m.txt")]
-   [noop] [noop (P "m.txt")] ["\xc3"] [:int (P "m.txt")] [(P "m.txt") :int]])
+   [noop] [noop (P "m.txt")] ["\xc3"] [:int (P "m.txt")] [(P "m.txt") :int]
+   # appended (indices above stay stable): only in the thorough tier and in witness synthesis (`only`): the remaining
+   # os/open flag combinations (access mode x create x truncate x excl) and unix-domain socket addresses
+   ;(if (or only (= level "full"))
+      [[(P "n1") :rc] [(P "n1") :rce] [(P "m.txt") :rt] [(P "n1") :rct] [(P "m.txt") :wt] [(P "n1") :wct] [(P "n1") :rwc]
+       [(P "m.txt") :rwt] [(P "n1") :c] [(P "m.txt") :t] [(P "n1") :ct] [(P "n1") :ce] [(P "m.txt") :w] [(P "m.txt") :rw]
+       [:unix (P "n2")] [:unix (P "n2") :datagram] [:unix "@c18-abstract"] [:unix (P "n2") noop]]
+      [])])
 
 (def pre-main (if (= mode "same") (make-pre) nil))
 
